@@ -37,6 +37,45 @@ N={
  'C18-a':("syncer/syncer.go runPeer: the per-peer slot is not returned on the subnet-over-budget drop path","one connection accumulating MaxInflightRPCs RPCs dropped by the per-subnet cap; afterwards its peer loop blocks forever"),
  'C18-b':("rhp/v4/server.go handleHostStream sets the stream deadline only after the RPC id was read","a renter that opens a stream, sends 1..15 bytes of the id and stalls; Server.Close during the stall never returns"),
  'C18-c':("threadgroup Stop returns early when already stopped","two overlapping Stop/Close calls while a thread of the group is still running"),
+ 'C01-c':("chain/manager.go AddBlocks reorgs when TotalWork is merely larger instead of SufficientlyHeavierThan","a network with per-block difficulty >= 5 (non-zero margin) and two forks whose work differs by less than a fifth of the tip difficulty, the node sitting on the marginally lighter one"),
+ 'C01-d':("chain/manager.go AddValidatedV2Blocks loses the rollback of a reorg that fails part-way","a fork whose lower part was stored header-checked only through AddBlocks and contains an invalid block, its upper part submitted pre-validated and making the fork the heaviest"),
+ 'C02-c':("chain/db.go MemDB.get treats an empty pending value as no pending value","an expiration list that becomes empty and is read again within one flush window (one reorg / multi-block batch) after it had been committed non-empty"),
+ 'C02-d':("chain/db.go revertElements writes back the revised contract instead of the pre-revision one when a v1 revision is reverted","a reorg reverting a block with a v1 contract revision while the contract stays unresolved on the new chain, then a lookup of the contract"),
+ 'C03-c':("chain/db.go RevertBlock commits the rolled-back tip pointer before the element store is rolled back","a size/time commit firing inside RevertBlock below the v2 require height and a stop before the next commit"),
+ 'C03-d':("chain/db.go CacheDB.Flush commits its puts and only then hands over the deletes","a store on a CacheDB, a commit containing deletes, and a stop between the two halves"),
+ 'C04-c':("chain/manager.go OnReorg keys listeners by len(map): a registration after an unsubscribe replaces a live listener","register L1,L2; cancel L1; register L3 (overwrites L2)"),
+ 'C04-d':("chain/manager.go AddBlocks notifies reorg listeners for every successful call, also when the tip did not move","a stored side-chain block that is not heavy enough, or a resubmission of known blocks"),
+ 'C05-c':("chain/manager.go applyTip passes the pre-block state to applyPoolUpdate: children of a just-confirmed parent are dropped as referencing unknown leaves","a pooled parent/child (ephemeral output) pair and a block confirming the parent without the child"),
+ 'C05-d':("chain/manager.go a rejected v2 set leaves an empty midstate behind instead of nil","a v2 submission conflicting with the pool (correctly rejected), then another submission double-spending a pooled transaction before the next block"),
+ 'C06-c':("wallet/update.go an output created and spent in the same block is kept in the wallet's stored outputs","a block confirming a dependent parent/child pair where the intermediate output pays the wallet"),
+ 'C06-d':("wallet/update.go the Foundation subsidy event is attributed by the post-block subsidy address","a subsidy block that also contains a Foundation address update, the wallet being the old or the new address"),
+ 'C07-c':("wallet/wallet.go FundV2Transaction drops the wallet mutex between selecting and reserving inputs","two concurrent FundV2Transaction calls"),
+ 'C07-d':("wallet/update.go applyChainUpdate no longer skips outputs created and spent in the same block","the wallet's own parent and child (spending the parent's change) confirmed in one block"),
+ 'C08-c':("rhp/v4/server.go handleRPCRenewContract persists the renewal before the pool validated the renewal set","a renewal whose renter inputs pass the host's own checks but fail consensus validation in the pool (bad input signature, double-spent input)"),
+ 'C08-d':("testutil/host.go LockV2Contract deferred cleanup-on-error also runs for 'already locked' and deletes the lock of the RPC in flight","RPC A holds the contract lock, contender B is refused, contender C then gets the lock while A is still running"),
+ 'C09-c':("testutil/host.go ReviseV2Contract keeps the old roots when the new root list is empty","frees covering every sector of the contract, then anything that reads the host's roots"),
+ 'C09-d':("rhp/v4/rpc.go RPCFreeSectors index normalisation moved into a helper that loses the compacted length","an index list with a repeated value"),
+ 'C10-c':("rhp/v4/rpc.go RPCFreeSectors compacts before sorting: non-adjacent duplicates survive into the request","a caller list with a non-adjacent duplicate and a host that executes duplicate indices verbatim and countersigns"),
+ 'C10-d':("rhp/v4/rpc.go RPCSectorRoots validates only the price table, not the requested range","an empty contract, a request for >0 roots, and a host answering with made-up roots, an empty proof and its real signature"),
+ 'C11-a':("syncer/peer.go SendCheckpoint replaces the commitment check binding the peer-supplied state to the block by consensus.ValidateOrphan","a checkpoint answer whose state has the right index and difficulty but a forged accumulator"),
+ 'C11-b':("syncer/parallel_sync.go fetchBlocks compares a continuation answer with the whole request size instead of the outstanding remainder","a short first SendV2Blocks answer followed by an over-long continuation (index out of range in a worker goroutine)"),
+ 'C11-c':("syncer/syncer.go ban returns early when the peer's connection already ended","a peer that delivers provably bad data and hangs up before the verdict"),
+ 'C11-d':("chain/manager.go AddBlocks no longer picks up the state of already-known blocks: a batch ending in known blocks never triggers a reorg","a failed-and-rolled-back reorg that left validated blocks A1..Ak stored, then an honest peer offering exactly A1..Ak"),
+ 'C11-e':("syncer/peer.go RelayV2BlockOutline handler forwards the outline before AddBlocks validated it","a mined outline that passes all pre-checks but fails ValidateBlock, with an honest peer connected: the honest peer bans the victim"),
+ 'C13-c':("chain/manager.go V2TransactionSet no longer revalidates the pool first","the first pool-related call after a tip change that confirmed (or invalidated) a pooled parent is V2TransactionSet for its child"),
+ 'C13-d':("chain/manager.go updateV2TransactionProofs caches the transaction ids once while the set is filtered in place","two members of the set confirmed by different blocks of the path"),
+ 'C14-c':("chain/manager.go revalidatePool records v2 indices by loop position although earlier entries were dropped","two pooled v2 transactions, the earlier one dropped by a block, then a lookup of the later one"),
+ 'C14-d':("chain/manager.go checkTxnSet: 'known' decided by the last transaction of the set only","a partly known set whose final transaction is already pooled"),
+ 'C15-c':("testutil/host.go DetachPools removes by swap-with-last, changing the drain order of the remaining pools","an account with >=3 pools, detach of a non-last pool, then a paid RPC drawing on the pools"),
+ 'C15-d':("rhp/v4/server.go attach and detach share one signature check that also accepts the account key","a hand-built RPCAttachPools request signed by the account key instead of the pool key"),
+ 'C16-c':("rhp/v4/rpc.go form/renew/refresh clients keep their reserved inputs when the host's final response fails with a transport error","the connection dies after the renter sent its signatures and before the host's third response"),
+ 'C16-d':("rhp/v4/server.go handleRPCRefreshContract does not re-attach the host inputs on the renter-basis translation error path","a refresh needing host funds with a renter basis the host cannot translate (unknown fork block)"),
+ 'C17-c':("chain/db.go cacheBucket.Delete drops a pending put without recording a tombstone","Put+Flush, then Put and Delete of the same key in one session"),
+ 'C17-d':("chain/db.go memBucket.Iter yields the flushed value of a key that has a pending overwrite","Put+Flush, Put (unflushed), Iter"),
+ 'C18-d':("syncer/syncer.go addPeer recount compares in > MaxInboundPeers instead of >=","more than MaxInboundPeers inbound handshakes in flight at once"),
+ 'C18-e':("wallet/wallet.go rebroadcast goroutine: defer stop(); defer cancel() (thread-group slot released before the reorg subscription is removed)","Close while the manager's unsubscribe cannot finish immediately (busy manager)"),
+ 'C20-c':("wallet/seed.go decodeBIP39Phrase tests wordMap[word]==0 instead of presence: 'abandon' (index 0) is rejected","a phrase containing the first list word"),
+ 'C20-d':("wallet/seed.go KeyFromSeed writes the index as uint32","a key index >= 2^32"),
  'C19-a':("chain/manager.go PruneBlocks walks upwards from genesis and breaks on the first missing body","prune at h1>=1, then prune again at h2>h1"),
  'C19-b':("chain/manager.go MinReorgIndex checks Header instead of Block","PruneBlocks mid-chain, then a heavier fork with fork point at the reported index"),
  'C20-a':("wallet/seed.go decodeBIP39Phrase never checks the 12th word against the word list (reads as index 0)","11 valid words followed by an unknown token where the same 11 words plus 'abandon' have a valid checksum (1 in 16)"),
@@ -55,6 +94,14 @@ H={'C02-a':"missed by the first version of C02 (all workloads used distinct wind
  'C10-b':"missed at first; coherent range forgeries built by the MITM from the real sector added",
  'C16-a':"missed at first; renew of a still-unconfirmed contract and interface-call fault injection after funding added",
  'C18-a':"first run ended INCONCLUSIVE (burst watchdog); dedicated subnet-drop-path scenario and bounded-liveness verdict added",
+ 'C05-c':"missed at first (an input of a confirmed pooled ancestor counted as 'spent on chain'); the eviction justification now follows only unconfirmed ancestors",
+ 'C01-c':"missed at first (all generated networks had difficulty 1, margin 0); networks with difficulty 2^10 and leap-frogging near-tie forks added",
+ 'C01-d':"missed at first (pre-validated batches only on fully valid ancestors); ghost ledgers and pre-validated batches above a header-checked invalid block added",
+ 'C13-c':"missed at first (every scenario queried the pool before assembling a set); V2TransactionSet as the first pool call after a tip change added",
+ 'C13-d':"missed at first (set members were confirmed by one block only); members confirmed in different blocks of the path added",
+ 'C14-d':"missed at first (pooled members always came first in partly known sets); any dependency-respecting order, incl. ending with a pooled member, added",
+ 'C11-b':"missed at first; multi-step SendV2Blocks answers (short first batch, corrupted continuation) added",
+ 'C11-c':"missed at first; hit-and-run twins (same offence staying connected / hanging up before the verdict) with a recording peer store added",
  'C18-b':"missed at first; stalled partial requests at every stage against Close added"}
 rows=[]
 for d in sorted(glob.glob('/verif/seeded/*')):
